@@ -125,14 +125,29 @@ impl Sys {
         Sys { mem: SimpleGseMemory::new(slots, PDU_SIZE, 0, 0), model: Model { slots, cap, free: vec![], saved: vec![None; slots] }, held: vec![], next_tag: 1, serial: 0, lens: vec![0; 256] }
     }
 
+    /// a tag that no live buffer carries (tags are 8 bits: in long sequences they are recycled, never shared)
+    fn fresh_tag(&mut self) -> Option<u8> {
+        for _ in 0..255 {
+            let t = self.next_tag;
+            self.next_tag = self.next_tag.wrapping_add(1).max(1);
+            let live = self.model.free.contains(&t) || self.model.saved.iter().any(|s| matches!(s, Some((_, bt)) if *bt == t)) || self.held.iter().any(|(_, b)| tag_of(b) == Some(t));
+            if !live {
+                return Some(t);
+            }
+        }
+        None
+    }
+
     /// apply one operation to memory and model; Err(description) on disagreement
     fn apply(&mut self, op: &Op) -> Result<(), (String, String)> {
         let slots = self.model.slots;
         match op {
             Op::Provision(d) => {
                 let len = PDU_SIZE + *d as usize - 1;
-                let tag = self.next_tag;
-                self.next_tag = self.next_tag.wrapping_add(1).max(1);
+                let tag = match self.fresh_tag() {
+                    Some(t) => t,
+                    None => return Ok(()),
+                };
                 self.lens[tag as usize] = len;
                 let b = mk_buf(tag, len);
                 let r = guard(|| self.mem.provision_storage(b)).map_err(|p| ("panic".to_string(), format!("provision_storage panicked: {}", p)))?;
@@ -249,8 +264,10 @@ impl Sys {
                 }
                 let (mut c, b) = if let Op::SaveForeign(i) = op {
                     self.serial += 1;
-                    let tag = self.next_tag;
-                    self.next_tag = self.next_tag.wrapping_add(1).max(1);
+                    let tag = match self.fresh_tag() {
+                        Some(t) => t,
+                        None => return Ok(()),
+                    };
                     self.lens[tag as usize] = PDU_SIZE - 3;
                     (ctx(*i, self.serial), mk_buf(tag, PDU_SIZE - 3))
                 } else {
